@@ -16,7 +16,11 @@ fn main() {
         "all" => vec!["C01", "C12", "C13", "C14"],
         p => vec![p],
     };
-    let budget = if thorough { Duration::from_secs(300) } else { Duration::from_secs(15) };
+    let budget = if thorough {
+        Duration::from_secs(300)
+    } else {
+        Duration::from_secs(15)
+    };
     for p in props {
         let t0 = Instant::now();
         let parts = vcomp::run(p, thorough, Instant::now() + budget);
@@ -35,7 +39,10 @@ fn main() {
                 part.detail["wall_ms"]
             );
             for v in &part.violations {
-                println!("    VIOLATION {}: {}\n      replay: {}", v.signature, v.what, v.replay);
+                println!(
+                    "    VIOLATION {}: {}\n      replay: {}",
+                    v.signature, v.what, v.replay
+                );
             }
             if verbose {
                 println!("    detail: {}", part.detail);
